@@ -45,8 +45,9 @@ LEVEL_TEXT = ("Proved in Lean 4 about the model that the driver runs, for ALL by
               "the decode function is stated) whenever that has no `..`; (served_file_under_root) the name serveFile appends to the "
               "root is `/` + a string without `..`/NUL for every dispatched request, so the file lies under the root. TOTALITY: "
               "(read_total, readHeaders_total, readBody_total, serve_total) HttpRequest::read and the keep-alive loop of "
-              "HttpServer::serve never index outside a string, end within |stream|+2 passes, and leave a SUFFIX of the unread "
-              "stream unread; (url_total, requestline_total, target_total, query_total) Url::Url, the request-line/target splits and "
+              "HttpServer::serve (serveLoop) never index outside a string, end within |stream|+2 passes, and leave a SUFFIX of the "
+              "stream unread (for serve this clause is stated on the loop, before closeBehind drops the rest; about serve itself "
+              "serve_total states that it returns with the connection closed); (url_total, requestline_total, target_total, query_total) Url::Url, the request-line/target splits and "
               "Url::parseQuery never index outside their argument. HEADERS: (header_lookup_any_case, capitalized_case_invariant, "
               "header_lookup_case_insensitive, header_set_get) lookup ignores letter case altogether. QUERY: "
               "(query_is_c15_parseQuery, query_roundtrip) query() computes C15's parseQuery on every NUL-free query string, hence "
@@ -54,15 +55,17 @@ LEVEL_TEXT = ("Proved in Lean 4 about the model that the driver runs, for ALL by
               "FAITHFUL: (readLine_faithful, requestline_faithful, headers_faithful, body_content_length_exact, read_faithful, "
               "read_faithful_chunked, read_faithful_chunked_any_spelling, serve_faithful) read(serialize q ++ rest) = (q, rest) for "
               "well-formed q with no body, a Content-Length body or a chunked body, and the loop hands every pipelined well-formed "
-              "request over in order. DISPATCH: (dispatch_implies_complete, read_dispatch_complete, "
-              "dispatch_requires_valid_content_length, cut_in_request_line_not_dispatched) every request handed to the application is "
+              "request over in order and has itself read the whole stream (stated on serveLoop). DISPATCH: (dispatch_implies_complete, read_dispatch_complete, "
+              "dispatch_requires_valid_content_length, dispatch_requires_framed_transfer_encoding, field_name_spec, cut_in_request_line_not_dispatched) every request handed to the application is "
               "a segment of the stream consisting of a full request line that splits into the method/target/protocol handed over, a "
-              "complete header block whose line-by-line fold IS the header dictionary handed over (HeaderBlockD), and the complete "
+              "complete header block whose line-by-line fold IS the header dictionary handed over (HeaderBlockD; a field name is a non-empty run of bytes 0x21-0x7e or >= 0x80, "
+              "isFieldName, stated in the spec file and proved equal to the model's validName; a continuation line needs a field before it), and the complete "
               "body those headers announce, which is the body handed over: the chunk sequence (valid size lines, exactly that many "
               "data bytes, CRLF after each chunk, terminating 0 chunk) when Transfer-Encoding is chunked (Content-Length is then ignored), else exactly the decimal Content-Length (< 2^31; signed, non-digit or longer values "
               "are never dispatched), else nothing. The same clause is judged on the real server by an independent RFC 7230 framing "
               "parser over every req/srv/tcp stream of every run. The model is tied to the code by the correspondence check on all "
-              "observable fields, socket state, bytes written back, bytes left unread, and (fmap) status/length of the static file "
+              "observable fields, socket state, bytes written back, bytes left unread (req: after one read; srv: where the reader itself closed the connection - on the other exits "
+              "closeBehind drops them, there the bytes unread at each dispatch, at=, are compared and judged against the framed end by the framing parser; tcp: not observed), and (fmap) status/length of the static file "
               "answer for every short token path on a fixture tree.")
 
 LEVEL_NOTE = ("Trusted: Lean kernel, harness + watchdog, the python framing parser, libc/OS as listed in assumptions. The query theorems "
@@ -73,7 +76,8 @@ LEVEL_NOTE = ("Trusted: Lean kernel, harness + watchdog, the python framing pars
               "with bytes >= 0x80 are not generated); a request with a Transfer-Encoding whose last coding is not chunked (gzip, `chunked, gzip`, xchunked, empty) is "
               "dropped, the connection closed (4dff910, theorem dispatch_requires_framed_transfer_encoding); gzip/deflate codings before chunked are not decoded. "
               "A header line whose name is empty or holds a blank/tab/control character (`Content-Length : 5`) ends the block like a line without colon, the connection is closed (9bf376e); so does a line that starts with white space before any field was read (c2e6d14). "
-              "HttpServer::serve ends every connection through closeBehind (7f6f841; model `closeBehind`: closed, the peer's remaining bytes dropped unless the socket is in error or closed by the reader). Repeated header fields keep the last value (single-valued Dic interface; outside_findings.txt): the oracle gives no opinion on streams that repeat Content-Length/Transfer-Encoding. Folded header lines are joined to the "
+              "HttpServer::serve ends every connection through closeBehind (7f6f841; model `closeBehind`: closed, the peer's remaining bytes dropped unless the socket is in error or closed by the reader); "
+              "serveLoopAt (the at= observable) is K-only, tied to serveLoop by serveLoopAt_loop. isFieldName is RFC 7230 `token` widened by the delimiters \"(),/;<=>?@[\\]{} and bytes >= 0x80, which the library accepts in field names (they hide no framing header). Repeated header fields keep the last value (single-valued Dic interface; outside_findings.txt): the oracle gives no opinion on streams that repeat Content-Length/Transfer-Encoding. Folded header lines are joined to the "
               "field value with one space (350c8ee) and received empty values are kept (988a64d); query tokens without `=` are "
               "dropped by Url::parseQuery by design (outside_findings.txt). Chunk framing is validated (4dbedbe, d0ace7d): size lines are 1-8 hex digits (<= 0x7fffffff) + blanks/;ext, each chunk must "
               "end in CRLF, trailer fields are not supported (such a request is dropped). "
@@ -863,6 +867,7 @@ def _ref_serve(s):
         return None
     pos = 0
     recs = []
+    ats = []
     out = b""
     while pos < len(s):
         r = _ref_request(s[pos:])
@@ -879,10 +884,11 @@ def _ref_serve(s):
         hconn = hconn.lower()
         recs.append(rec)
         pos += used
+        ats.append(len(s) - pos)
         out += proto + b" 200 OK\r\n" + (b"Connection: keep-alive\r\n" if hconn == b"keep-alive" else b"") + b"Content-Length: 2\r\n\r\nok"
         if (proto == b"HTTP/1.0" and hconn != b"keep-alive") or hconn == b"close":
             break
-    return recs, out, len(s) - pos
+    return recs, out, ats
 
 
 def reference(line):
@@ -892,10 +898,12 @@ def reference(line):
             r = _ref_serve(unhex(t[1]))
             if r is None:
                 return None
-            recs, out, rest = r
+            recs, out, ats = r
             # HttpServer::serve ends the connection itself (closeBehind, 7f6f841): send side shut down, what the peer sent
-            # behind the last request served is read and dropped, the socket closed: nothing is left unread
-            return "n=%d%s | err=0 closed=1 out=%s rest=0" % (len(recs), "".join(" [%s]" % x for x in recs), adler_rep(out))
+            # behind the last request served is read and dropped, the socket closed: nothing is left unread.  at= : bytes
+            # of the stream still unread when each request was handed over (where it ended)
+            return "n=%d%s | err=0 closed=1 out=%s rest=0 at=%s" % (len(recs), "".join(" [%s]" % x for x in recs), adler_rep(out),
+                                                                     ",".join(str(a) for a in ats) if ats else "-")
         if t[0] == "tcp" and len(t) >= 2:
             outs = []
             for h in t[1:]:
@@ -1095,7 +1103,11 @@ INCOMPLETE_CLAUSE = ("the application was handed a request although the stream, 
 MISMATCH_CLAUSE = "the application was handed a request whose %s is not the one of the framed request in the stream"
 
 
-def _dispatch_judge(stream, recs):
+END_CLAUSE = ("a request was handed to the application before its framed end or after bytes behind it had been read "
+              "(the bytes of the stream unread at the dispatch are not those behind the framed request)")
+
+
+def _dispatch_judge(stream, recs, ats=None):
     pos = 0
     k = 0
     while k < len(recs):
@@ -1111,6 +1123,8 @@ def _dispatch_judge(stream, recs):
         if mm is not None:
             return MISMATCH_CLAUSE % mm
         pos += fr["used"]
+        if ats is not None and k < len(ats) and ats[k] != len(stream) - pos:
+            return END_CLAUSE
         k += 1
     return None
 
@@ -1120,7 +1134,9 @@ def dispatch_clause(line, out):
     t = line.split()
     try:
         if t[0] == "srv" and len(t) == 2 and out.startswith("n="):
-            return _dispatch_judge(unhex(t[1]), re.findall(r"\[(.*?)\]", out.split(" | ")[0]))
+            am = re.search(r" at=([0-9,]+)", out)
+            return _dispatch_judge(unhex(t[1]), re.findall(r"\[(.*?)\]", out.split(" | ")[0]),
+                                   [int(x) for x in am.group(1).split(",")] if am else None)
         if t[0] == "tcp" and len(t) >= 2 and out.startswith("n="):
             parts = out.split(" || ")
             if len(parts) != len(t) - 1:
